@@ -55,11 +55,17 @@ SampleBound == TLCGet("level") <= SampleN
 Leaf(id) == [text |-> id, tree |-> [key |-> id, base |-> id]]
 FName == IF own = "binary" THEN "f.bin" ELSE "f.py"
 FNameChars == IF own = "binary" THEN <<"f", ".", "b", "i", "n">> ELSE <<"f", ".", "p", "y">>
-LevelDir(k)      == CASE k = 1 -> <<>> [] k = 2 -> <<"a">> [] k = 3 -> <<"a", "b">>
-LevelDirChars(k) == CASE k = 1 -> <<>> [] k = 2 -> <<"a">> [] k = 3 -> <<"a", "/", "b">>
-LevelSrc(k)      == CASE k = 1 -> "REUSE.toml" [] k = 2 -> "a/REUSE.toml" [] k = 3 -> "a/b/REUSE.toml"
-ExactGlob(k) == CASE k = 1 -> <<"a", "/", "b", "/">> \o FNameChars
-                  [] k = 2 -> <<"b", "/">> \o FNameChars
+(* names of the two directory levels (one character each); a configuration may substitute others, e.g. names that *)
+(* sort before "REUSE.toml" as strings but not as path components: D1 <- D1Alt, D2 <- D2Alt                        *)
+D1 == "a"
+D2 == "b"
+D1Alt == "3"
+D2Alt == "D"
+LevelDir(k)      == CASE k = 1 -> <<>> [] k = 2 -> <<D1>> [] k = 3 -> <<D1, D2>>
+LevelDirChars(k) == CASE k = 1 -> <<>> [] k = 2 -> <<D1>> [] k = 3 -> <<D1, "/", D2>>
+LevelSrc(k)      == CASE k = 1 -> "REUSE.toml" [] k = 2 -> D1 \o "/REUSE.toml" [] k = 3 -> D1 \o "/" \o D2 \o "/REUSE.toml"
+ExactGlob(k) == CASE k = 1 -> <<D1, "/", D2, "/">> \o FNameChars
+                  [] k = 2 -> <<D2, "/">> \o FNameChars
                   [] k = 3 -> FNameChars
 GlobOf(kind, k) == CASE kind = "all" -> <<"*", "*">>
                      [] kind = "exact" -> ExactGlob(k)
@@ -81,8 +87,8 @@ Levels == {k \in 1..3 : chain[k] # <<>>}
 RECURSIVE SeqOfLevels(_)
 SeqOfLevels(S) == IF S = {} THEN <<>> ELSE LET m == CHOOSE x \in S : \A y \in S : x <= y
                                            IN  <<TomlOf(m)>> \o SeqOfLevels(S \ {m})
-File == [path |-> <<"a", "b", FName>>, pathstr |-> "a/b/" \o FName,
-         pchars |-> <<"a", "/", "b", "/">> \o FNameChars,
+File == [path |-> <<D1, D2, FName>>, pathstr |-> D1 \o "/" \o D2 \o "/" \o FName,
+         pchars |-> <<D1, "/", D2, "/">> \o FNameChars,
          ncls |-> "plain", type |-> IF own = "binary" THEN "binary" ELSE "text",
          anc |-> <<[cls |-> "plain", symlink |-> FALSE, ignored |-> FALSE, submodule |-> FALSE],
                    [cls |-> "plain", symlink |-> FALSE, ignored |-> FALSE, submodule |-> FALSE]>>,
@@ -94,8 +100,8 @@ File == [path |-> <<"a", "b", FName>>, pathstr |-> "a/b/" \o FName,
                   cop |-> IF HasCop(dot) THEN <<"SPDX-FileCopyrightText: 2011 Dot Holder">> ELSE <<>>,
                   lic |-> IF HasLic(dot) THEN <<Leaf("ISC")>> ELSE <<>>,
                   bad |-> FALSE]]
-Dep5Para == [pats |-> IF dep5 = "match" THEN <<<<Lit("a"), Lit("/"), GS>>>> ELSE <<<<Lit("z"), Lit("/"), GS>>>>,
-             patstr |-> IF dep5 = "match" THEN "a/*" ELSE "z/*",
+Dep5Para == [pats |-> IF dep5 = "match" THEN <<<<Lit(D1), Lit("/"), GS>>>> ELSE <<<<Lit("z"), Lit("/"), GS>>>>,
+             patstr |-> IF dep5 = "match" THEN D1 \o "/*" ELSE "z/*",
              cop |-> <<"2005 Dep Five">>, lic |-> <<Leaf("Unlicense")>>]
 Proj == [files |-> <<File>>, licfiles |-> <<>>, tomls |-> SeqOfLevels(Levels),
          dep5 |-> IF dep5 = "none" THEN <<>> ELSE <<Dep5Para>>,
